@@ -63,6 +63,12 @@ def isNil : RTree → Bool
   | nil => true
   | _ => false
 
+/-- token positions of the nodes that stand for a token (the synthesized `List` nodes left out), in in-order -/
+def inorderSig : RTree → List Nat
+  | nil => []
+  | node l d k r => l.inorderSig ++ (if d == .list then [] else [k]) ++ r.inorderSig
+  | group _ k inner => k :: inner.inorderSig
+
 /-- s-expression `(Def tok left right)`, `-` for an absent child -/
 def render : RTree → String
   | nil => "-"
@@ -128,9 +134,12 @@ structure Frame where
   last : Last
   /-- whitespace (or a separator inside a group) seen since the last item -/
   ws : Bool
+  /-- the previous non-filler token of this bracket was a separator (kept or dropped) or the `{` that opened it:
+      a separator that follows is redundant -/
+  prevSep : Bool
 deriving Repr
 
-def Frame.top : Frame := { ctx := none, cur := .nil, last := .start, ws := false }
+def Frame.top : Frame := { ctx := none, cur := .nil, last := .start, ws := false, prevSep := false }
 
 def Frame.inGroup (f : Frame) : Bool :=
   match f.ctx with
@@ -166,19 +175,21 @@ def refStep (tbl : Table) (f : Frame) (stack : List Frame) (pos : Nat) (t : PTok
     if d == .drop || d == .expressionTerminator then .err .unsupported
     else
       Outcome.bind (beforeOperand tbl f pos) fun f =>
-        .ok ({ f with cur := plug f.cur (.node .nil d pos .nil), last := .operand, ws := false }, stack)
+        .ok ({ f with cur := plug f.cur (.node .nil d pos .nil), last := .operand, ws := false, prevSep := false }, stack)
   | .unaryPrefix =>
     Outcome.bind (beforeOperand tbl f pos) fun f =>
-      .ok ({ f with cur := plug f.cur (.node .nil d pos .nil), last := .op, ws := false }, stack)
+      .ok ({ f with cur := plug f.cur (.node .nil d pos .nil), last := .op, ws := false, prevSep := false }, stack)
   | .startGrouping =>
     Outcome.bind (beforeOperand tbl f pos) fun f =>
-      .ok ({ ctx := some (d, pos), cur := .nil, last := .start, ws := false }, { f with ws := false } :: stack)
+      .ok ({ ctx := some (d, pos), cur := .nil, last := .start, ws := false, prevSep := d == .nestedExpression },
+           { f with ws := false } :: stack)
   | .endGrouping =>
     match f.ctx, stack with
     | some (gd, gpos), parent :: stack =>
       if closerFor gd != some t.type then .err .syntax
       else if f.last == .op || f.last == .sep then .err .syntax
-      else .ok ({ parent with cur := plug parent.cur (.group gd gpos f.cur), last := .operand, ws := false }, stack)
+      else .ok ({ parent with cur := plug parent.cur (.group gd gpos f.cur), last := .operand, ws := false,
+                              prevSep := false }, stack)
     | _, _ => .err .syntax
   | .startSideEffect | .endSideEffect => .err .unsupported
   | .binaryLeftToRight | .binaryRightToLeft | .unarySuffix | .optionalBinaryLeftToRight =>
@@ -190,16 +201,16 @@ def refStep (tbl : Table) (f : Frame) (stack : List Frame) (pos : Nat) (t : PTok
       if !leftOk then .err .syntax
       else
         let last : Last := if s == .unarySuffix then .suffix else if optional then .optOp else .op
-        .ok ({ f with cur := attach tbl q (s == .binaryRightToLeft) d pos f.cur, last := last, ws := false }, stack)
+        .ok ({ f with cur := attach tbl q (s == .binaryRightToLeft) d pos f.cur, last := last, ws := false,
+                      prevSep := false }, stack)
   | .subexpression =>
     if f.inGroup then .ok ({ f with ws := true }, stack)
-    else if f.last == .sep || (f.last == .start && f.ctx.isSome) then .ok (f, stack)
-    else if t.type == .subexpression && closerFollows rest then .ok (f, stack)
+    else if f.prevSep || (t.type == .subexpression && closerFollows rest) then .ok ({ f with prevSep := true }, stack)
     else if f.last == .op then .err .syntax
     else
       match tbl.prio d with
       | none => .err .implementation
-      | some q => .ok ({ f with cur := attach tbl q false d pos f.cur, last := .sep, ws := false }, stack)
+      | some q => .ok ({ f with cur := attach tbl q false d pos f.cur, last := .sep, ws := false, prevSep := true }, stack)
 
 /-- the pass over the trimmed tokens (structural recursion) -/
 def refLoop (tbl : Table) : Frame → List Frame → Nat → List PToken → Outcome RTree
